@@ -227,6 +227,17 @@ def run(ctx):
         col = core.Collector(PID)
         col.record(tspec, nontrivial=True, classes=["template-build"] + tcl, buckets=tb)
         return col
+    try:
+        store.standard_template()
+    except store.TemplateError as e:
+        # the complete build history (state changes, destroy-then-register, ...) as one case
+        tspec = {"label": "template-build", "empty_store": True, "reqs": e.reqs}
+        tb, tnt, tcl = run_template_case(tspec)
+        if not tb:
+            raise core.HarnessError("standard store cannot be built: %s" % e)
+        col = core.Collector(PID)
+        col.record(tspec, nontrivial=True, classes=["template-build"] + tcl, buckets=tb)
+        return col
     n = core.NCPU
     jobs = [(versions, i, n) for i in range(n)]
     dicts = core.run_sharded("vlib.props.c13", "grid_worker", jobs)
